@@ -591,8 +591,10 @@ def run(ctx):
         bad = f_shom.result()
         if bad.ok or 'is false' not in bad.out:
             raise core.MachineryError('the pinned Shomate algorithm should be rejected:\n' + bad.out[-1500:])
+        wit = [core.parse_tla(p)[1] for p in bad.prints() if core.tagged(p, 'WITNESS')]
         ctx.notes.append('design model rejects the pinned Shomate summation (mix array of the last '
-                         'T added unsummed): assumption EvalRefines is false')
+                         'T added unsummed): assumption EvalRefines is false, e.g. %s'
+                         % (json.dumps(wit[0], sort_keys=True) if wit else '?'))
         gcases.sort(key=lambda c: json.dumps(c, sort_keys=True))
         for k, c in enumerate(gcases):
             cases.append(_grid_case(c, 'e%d' % k))
